@@ -161,7 +161,11 @@ def register_executor(R, P):
         "GWF:: GWF(self.model.tracegraph)",
         "RGWF:: RGWF(self.model.refgraph)",
         "FLAGS:: all(c.is_cached == old(c.is_cached) for c in every('NodeObj'))",
+        # A-PURE: a formula neither clears nor overwrites held values, and does not touch input flags
+        "DATA-MONO:: all(implies(old(k in c.data), k in c.data and c.data[k] == old(c.data[k])) for c in every('NodeObj') for k in every('key'))",
+        "INPUTS:: all(unchanged(c.input_keys) for c in every('CellsImpl'))",
     ]
+    MONO = STABLE[-2:]
     R.macro("cs", ["o"], "o.system.executor.callstack")
     R.contract("extern::NodeObj.on_eval_formula", trusted=True,
         note="interface contract of CellsImpl.on_eval_formula / ItemSpaceParent.on_eval_formula: runs user code (rely contract "
@@ -207,7 +211,7 @@ def register_executor(R, P):
             " and implies(has_caller(self.callstack), has_edge(node[0].model.tracegraph, node if node[0].is_cached else objnode(node[0]), caller(self.callstack)))",
             "NO-PENDING:: all(self.refstack[j][0] < self.callstack.counter for j in range(len(self.refstack)))",
             "GWF:: GWF(node[0].model.tracegraph)", "RGWF:: RGWF(node[0].model.refgraph)",
-        ],
+        ] + MONO,
         raises={
             # C05: append refused: nothing was pushed, only the caller's frame will unwind
             "DeepReferenceError": [
@@ -215,7 +219,7 @@ def register_executor(R, P):
                 "WF:: WF(self.callstack)",
                 "STACK:: unchanged(self.callstack, self.callstack.idxstack) and self.callstack.counter == old(self.callstack.counter)",
                 "UNCHANGED:: unchanged(self.refstack, self.rolledback, node[0].model.tracegraph, node[0].model.refgraph) and self.ghost_runs == old(self.ghost_runs)",
-            ],
+            ] + MONO,
             # C05/C17: any exception of the formula: frame unwound, node out of the graph, same exception re-raised
             "*": [
                 "WF:: WF(self.callstack)",
@@ -225,7 +229,7 @@ def register_executor(R, P):
                 "CHAIN:: len(self.rolledback) > 0 and self.rolledback[-1] == (self.callstack.counter, raised, node)",
                 "NO-PENDING:: all(self.refstack[j][0] < self.callstack.counter for j in range(len(self.refstack)))",
                 "GWF:: GWF(node[0].model.tracegraph)", "RGWF:: RGWF(node[0].model.refgraph)",
-            ]},
+            ] + MONO},
         modifies=["every_content('dict[key,val]')", "every_content('set[key]')", "every_content('graph')",
                   "every_content('graph[rnode]')", "content(self.refstack)", "content(self.rolledback)", "self.ghost_runs",
                   "content(self.callstack)", "content(self.callstack.idxstack)", "self.callstack.counter"],
@@ -235,6 +239,9 @@ def register_executor(R, P):
 
 
 def register_executor2(R, P):
+    MONO = ["DATA-MONO:: all(implies(old(k in c.data), k in c.data and c.data[k] == old(c.data[k])) for c in every('NodeObj') for k in every('key'))",
+            "INPUTS:: all(unchanged(c.input_keys) for c in every('CellsImpl'))",
+            "GWF:: GWF(node[0].model.tracegraph)", "RGWF:: RGWF(node[0].model.refgraph)"]
     # W5 — nothing is executing outside a top-level call
     R.macro("IDLE", ["ex"], "len(ex.callstack) == 0 and len(ex.refstack) == 0")
     EXREQ = ["WF(self.callstack)", "is_item(node)", "GWF(node[0].model.tracegraph)", "RGWF(node[0].model.refgraph)", "node[0].system.executor is self",
@@ -247,6 +254,7 @@ def register_executor2(R, P):
         "IDLE:: implies(not self.is_executing, IDLE(self))",
         "NOT-IN-GRAPH:: implies(old(not (node[0].is_cached and node[1] in node[0].data)), not has_node(node[0].model.tracegraph, node))",
     ]
+    ANYEXC = MONO + ANYEXC
     R.contract(F + "::NonThreadedExecutor._start_exec",
         params={"self": "Executor", "node": "node"}, returns="val",
         requires=EXREQ + ["not self.is_executing"],
@@ -256,15 +264,15 @@ def register_executor2(R, P):
             # the value returned is the buffer of THIS run
             "STORED:: implies(node[0].is_cached and self.excinfo[0] is null, node[1] in node[0].data and node[0].data[node[1]] == result)",
             "CLEAN:: implies(self.excinfo[0] is null, self.errorstack is null)",
-        ],
+        ] + MONO,
         raises={
             "FormulaError": ["WF:: WF(self.callstack)", "IDLE:: IDLE(self) and not self.is_executing",
                              "CARRIES-ORIGINAL:: self.excinfo[1] is not null and self.errorstack is not null",
                              "USED:: self.is_formula_error_used",
-                             "NOT-IN-GRAPH:: not has_node(node[0].model.tracegraph, node)"],
+                             "NOT-IN-GRAPH:: not has_node(node[0].model.tracegraph, node)"] + MONO,
             "*": ["WF:: WF(self.callstack)", "IDLE:: IDLE(self) and not self.is_executing",
                   "ORIGINAL:: raised is self.excinfo[1] and not self.is_formula_error_used",
-                  "NOT-IN-GRAPH:: not has_node(node[0].model.tracegraph, node)"],
+                  "NOT-IN-GRAPH:: not has_node(node[0].model.tracegraph, node)"] + MONO,
         },
         modifies=["every_content('dict[key,val]')", "every_content('set[key]')", "every_content('graph')",
                   "every_content('graph[rnode]')", "content(self.refstack)", "content(self.rolledback)", "self.ghost_runs",
@@ -296,7 +304,7 @@ def register_executor2(R, P):
             "MISS-STORED:: implies(old(not (node[0].is_cached and node[1] in node[0].data)) and node[0].is_cached"
             " and (old(self.is_executing) or self.excinfo[0] is null),"
             " node[1] in node[0].data and node[0].data[node[1]] == result)",
-        ],
+        ] + MONO,
         raises={"FormulaError": ANYEXC, "DeepReferenceError": ANYEXC[:-1], "*": ANYEXC},
         modifies=["every_content('dict[key,val]')", "every_content('set[key]')", "every_content('graph')",
                   "every_content('graph[rnode]')", "content(self.refstack)", "content(self.rolledback)", "self.ghost_runs",
